@@ -254,6 +254,21 @@ func signWith(d *big.Int, digest []byte, sc mc.Script) (r, s []byte, consumed in
 	return rr.Bytes(), ss.Bytes(), rd.Consumed, nil
 }
 
+// scribbler is an entropy reader whose first Read also overwrites a buffer of the caller (the digest).
+type scribbler struct {
+	*mc.Reader
+	target, with []byte
+	done         bool
+}
+
+func (s *scribbler) Read(p []byte) (int, error) {
+	if !s.done {
+		s.done = true
+		copy(s.target, s.with)
+	}
+	return s.Reader.Read(p)
+}
+
 // runHedged: determinism, exactly 32 bytes, delivery-mode independence, faults at every byte.
 func runHedged(d *big.Int, digest []byte, src string) string {
 	base := mc.Script{Src: src, Mode: "full", FailAfter: -1}
@@ -302,6 +317,37 @@ func runHedged(d *big.Int, digest []byte, src string) string {
 		}
 		if c2 != 32 {
 			return fmt.Sprintf("delivery %q: consumed %d bytes", m, c2)
+		}
+	}
+	// a reader that stalls (returns (0, nil)) for a long time before it goes on: an implementation may give up with an
+	// error (bufio does after 100 empty reads) - what it may never do is sign with fewer than the 32 bytes
+	for _, m := range []string{"stall:150:0", "stall:150:20", "stall:1000:31"} {
+		sc := base
+		sc.Mode = m
+		r2, s2, _, e2 := signWith(d, digest, sc)
+		if e2 == nil && (!bytes.Equal(r2, r0) || !bytes.Equal(s2, s0)) {
+			return fmt.Sprintf("delivery mode %q (long run of empty reads, then the rest of the 32 bytes) produced a signature that is not the one for these 32 entropy bytes: the read was cut short and signed anyway", m)
+		}
+	}
+	// a reader that scribbles over the caller's digest buffer while it is being read (shared scratch memory): whatever
+	// snapshot of the digest the implementation works on, it works on ONE - the result is an error, or exactly the
+	// signature of the old digest, or exactly the signature of the new one (same entropy); never a mixture such as
+	// a nonce derived from one digest in a signature on the other
+	{
+		dg := append([]byte{}, digest...)
+		newDg := append([]byte{}, digest...)
+		for i := range newDg {
+			newDg[i] ^= 0x3c
+		}
+		rn, sn, _, en := signWith(d, newDg, base)
+		rd := &scribbler{Reader: base.New(), target: dg, with: newDg}
+		rr, ss, _, e := lib.MkPriv(d).SignRaw(rd, dg)
+		if e == nil && en == nil {
+			isOld := bytes.Equal(rr.Bytes(), r0) && bytes.Equal(ss.Bytes(), s0)
+			isNew := bytes.Equal(rr.Bytes(), rn) && bytes.Equal(ss.Bytes(), sn)
+			if !isOld && !isNew {
+				return "the entropy reader overwrote the caller's digest buffer during its Read: the result is neither the signature of the old digest nor that of the new one for this entropy (the digest was fetched twice: nonce from one message, signature on the other)"
+			}
 		}
 	}
 	for j := 0; j <= 32; j++ {
